@@ -35,9 +35,9 @@ pub fn scenario_case(s: &Scenario, rec: &mut CaseRec) -> Result<(), String> {
 }
 
 /// abstract layouts (shared with C03): every write is a target chunk at a target offset, once, never at an in-place location
-fn layout_case(l: &Layout, rec: &mut CaseRec) -> Result<(), String> {
+pub fn layout_case(l: &Layout, rec: &mut CaseRec) -> Result<(), String> {
     // failures of the run itself (reorder error, chunks left over) and a wrong final content are C03's verdict
-    let r = match run_layout(l, 64) {
+    let r = match run_layout(l, l.hash_len) {
         Ok(r) => r,
         Err(_) => {
             rec.excluded = Some("layout_run_failed_(judged_by_C03_not_here)".into());
@@ -73,6 +73,7 @@ fn layout_case(l: &Layout, rec: &mut CaseRec) -> Result<(), String> {
     rec.class_if(r.copies > 0, "chunk_moved");
     rec.class_if(r.dup_dest, "duplicate_destination");
     rec.class_if(r.partially_in_place, "chunk_partially_in_place");
+    rec.class_if(l.hash_len < 64, "truncated_hash");
     Ok(())
 }
 
@@ -83,8 +84,9 @@ fn layout_strategy() -> impl Strategy<Value = Layout> {
             prop::collection::vec(0u8..k as u8, 1..24),
             prop::collection::vec((any::<u16>(), any::<u16>()), 0..6),
             prop::collection::vec((any::<u16>(), 0u8..k as u8), 0..4),
+            crate::props::c03::layout_hash_len(),
         )
-            .prop_map(|(sizes, prior, swaps, repl)| {
+            .prop_map(|(sizes, prior, swaps, repl, hash_len)| {
                 let mut target = prior.clone();
                 for (a, b) in swaps {
                     let (i, j) = (crate::gen::idx(a, target.len()), crate::gen::idx(b, target.len()));
@@ -94,7 +96,7 @@ fn layout_strategy() -> impl Strategy<Value = Layout> {
                     let i = crate::gen::idx(a, target.len());
                     target[i] = v;
                 }
-                Layout { sizes, prior, target }
+                Layout { sizes, prior, target, hash_len }
             })
     })
 }
